@@ -202,7 +202,7 @@ func genWrap(seed uint64, faulty bool) *Scenario {
 	for i, n := 0, g.in(1, 6); i < n; i++ {
 		switch {
 		case strings.HasPrefix(w.Kind, "blank") && g.pct(45):
-			k := []string{"set-static", "set-static", "set-watch", "set-fail", "set-watch-fail", "bdone", "bvalue"}[g.r.IntN(7)]
+			k := []string{"set-static", "set-static", "set-watch", "set-watch-eager", "set-fail", "set-watch-fail", "bdone", "bvalue"}[g.r.IntN(8)]
 			c.Ops = append(c.Ops, Op{K: k, N: int(g.id())})
 		case g.pct(15):
 			c.Ops = append(c.Ops, Op{K: "sleep", D: int64(g.in(1, 300)) * 1e6})
@@ -270,15 +270,20 @@ func (s *wInner) Value(_ context.Context, t *dials.Type) (reflect.Value, error) 
 type wInnerWatch struct {
 	wInner
 	failWatch bool
+	eager     uint64 // a poller whose first poll happens inside Watch: it reports this newer value at once
+	eagerErr  error
 	wa        dials.WatchArgs
 	typ       *dials.Type
 }
 
-func (s *wInnerWatch) Watch(_ context.Context, t *dials.Type, wa dials.WatchArgs) error {
+func (s *wInnerWatch) Watch(ctx context.Context, t *dials.Type, wa dials.WatchArgs) error {
 	if s.failWatch {
 		return errInner
 	}
 	s.wa, s.typ = wa, t
+	if s.eager != 0 {
+		s.eagerErr = wa.ReportNewValue(ctx, innerValue(t, s.eager, s.own, false))
+	}
 	return nil
 }
 
@@ -320,6 +325,7 @@ type wrapRun struct {
 	// blank reference model
 	state             string // empty | static | watching
 	expectMonitorGone bool
+	expectStamp       uint64 // stamp the wrapped twin must show once settled (0: only twin equality is checked)
 }
 
 func (r *wrapRun) fail(oracle, format string, a ...any) {
@@ -599,8 +605,11 @@ func (r *wrapRun) wrapped(c *ClientSpec, blank *sourcewrap.Blank, inner *wInnerW
 			if iw.wa != nil {
 				r.fail("C20.blank", "Watch was called on a source whose Value had failed")
 			}
-		case "set-watch":
+		case "set-watch", "set-watch-eager":
 			iw := &wInnerWatch{wInner: wInner{id: id, own: "Stamp"}}
+			if op.K == "set-watch-eager" {
+				iw.eager = id + 1<<33
+			}
 			var src dials.Source = iw
 			if r.sc.Wrap.Kind == "blank-twatch" || len(names) > 0 {
 				src = sourcewrap.NewTransformingSource(iw, mg...)
@@ -621,6 +630,16 @@ func (r *wrapRun) wrapped(c *ClientSpec, blank *sourcewrap.Blank, inner *wInnerW
 			inner = iw
 			blankInner = &iw.wInner
 			mirror(id, true)
+			if iw.eager != 0 {
+				// natively the value from Value() is applied first and the watcher's
+				// own report afterwards: the newer one must win
+				r.probes["watcher-reports-inside-Watch"]++
+				if iw.eagerErr != nil {
+					r.fail("C20.update", "report from inside Watch failed: %v", iw.eagerErr)
+				}
+				mirror(iw.eager, false)
+				r.expectStamp = iw.eager
+			}
 		case "bvalue":
 			// Blank.Value delegates to the most recently set inner source
 			if blankInner == nil {
